@@ -19,6 +19,8 @@ CHECKS['C05'] = (T % ('every in-domain <=2 (thorough 3)-wire lattice structure (
          'Every (structure, motion) pair within the bound is built and solved; tolerances as stated.', 'own rotation matrices (X,Y,Z order) and composition (key order, scale last) from the documentation', '3/C05')
 CHECKS['C09'] = (T % ('stars of k=2..4 (thorough 5) spokes in every orientation and order and all directed descriptions of all <=3 (thorough 4)-wire lattice graphs, with and without grounded ends', 'the parsed CURRENT DATA block against the harness end clustering (junction sums, free ends, J = signed sum of solved pulse currents)'),
          'Every description within the bound is solved and its report parsed.', 'report parser; end clustering from the statement', '3/C09')
+CHECKS['C16'] = (T % ('per axis 6 starts x 9 steps (non-representable decimals, negative) x counts (quick 16 values up to 100, thorough 1..100), 2-/3-axis combinations for counts<=4, the same for theta/phi, through the API and through main() with parsed report', 'start + i*step for i < count in the documented order'),
+         'Every grid in the menu is requested from the real code; counts and coordinates compared exactly / to print precision.', '1-pulse model far from the grid keeps the cost per point ~1 ms', '3/C16')
 NA = {}
 def main():
     src = subprocess.run(['git', '-C', '/repo', 'log', '--format=%H %s'], capture_output=True, text=True).stdout
